@@ -490,10 +490,31 @@ func (c *Ctx) pairSites(report bool) map[string]bool {
 				}
 				return true
 			})
+			if !paired {
+				// explicit release: every normal exit reachable after the Add passes a Remove of the same element first (exits by
+				// panic are not counted: every in-process set of this module is created by the top-level call that owns the
+				// traversal and is garbage once that call is abandoned)
+				g := c.buildCFG(fd.Body)
+				paired = g.everyExitAfter(add, func(n ast.Node) bool {
+					hit := false
+					ast.Inspect(n, func(x ast.Node) bool {
+						if _, isLit := x.(*ast.FuncLit); isLit {
+							return false
+						}
+						if ce, ok := x.(*ast.CallExpr); ok && c.calleeName(ce) == "util.PtrSet.Remove" && len(ce.Args) == 1 {
+							if rs, ok := ce.Fun.(*ast.SelectorExpr); ok && c.objOf(rs.X) == recv && sx(ce.Args[0]) == sx(add.Args[0]) {
+								hit = true
+							}
+						}
+						return !hit
+					})
+					return hit
+				})
+			}
 			res[owner] = paired
 			if report {
 				if paired {
-					c.R.OK(owner, "Add("+src(add.Args[0])+") released on exit", add.Pos(), "defer %s.Remove(%s): the set is the current path, a value occurring twice is not a cycle", src(se.X), src(add.Args[0]))
+					c.R.OK(owner, "Add("+src(add.Args[0])+") released on exit", add.Pos(), "%s.Remove(%s) deferred, or passed on every path to a return: the set is the current path, a value occurring twice is not a cycle", src(se.X), src(add.Args[0]))
 				} else {
 					c.R.Bad(owner, "Add("+src(add.Args[0])+") released on exit", add.Pos(), "element is added to the in-process set and never removed: a value that merely occurs twice (e.g. [xs, xs], or one *Type used for two parameters) is rendered as a cycle with a heap address")
 				}
